@@ -164,9 +164,9 @@ Section DR.
     rewrite E3. cbn [bind].
     destruct (ent_flds first e) as (F1 & F2 & F3 & F4). cbv zeta in F1, F2, F3, F4.
     cbv zeta. rewrite F1, F2, F3, F4.
-    assert (Hes : (cl (de_name e) - 1) mod 65536 = cl (de_name e) - 1) by (apply N.mod_small; lia).
-    rewrite Hes. replace (cl (de_name e) - 1 + 1) with (cl (de_name e)) by lia.
-    destruct (read_seg m3 _ _ (cl (de_name e) - 1 + 2) (cl (de_name e)) R3 eq_refl ltac:(lia)) as (m4 & E4 & R4).
+    assert (Hes : (cl (de_name e) - 1) mod 65536 = cl (de_name e) - 1) by (apply N.mod_small; clear - N1 N2; lia).
+    rewrite Hes. replace (cl (de_name e) - 1 + 1) with (cl (de_name e)) by (clear - N1; lia).
+    destruct (read_seg m3 _ _ (cl (de_name e) - 1 + 2) (cl (de_name e)) R3 eq_refl ltac:(clear - N1; lia)) as (m4 & E4 & R4).
     rewrite E4. cbn [bind].
     pose proof (mr_position_ok compress uncompress compress_ok uc uc_ok img img_small T m4 _ TO R4) as P4.
     destruct (mr_position m4) as [blk off].
@@ -175,10 +175,11 @@ Section DR.
     - unfold ent_out. cbn [d_name d_type d_diff d_off].
       split; [reflexivity|]. split; [apply N.mod_small; exact Ty|]. split.
       + rewrite I2. apply (delta_u32 (de_num e) (de_num first) Nu I3 Dl).
-      + rewrite I1. rewrite U16_val in *. rewrite N.mod_mod by discriminate. unfold same_block in Sb. rewrite U16_val in Sb. lia.
+      + rewrite I1. rewrite U16_val in *. rewrite N.mod_mod by discriminate. unfold same_block in Sb. rewrite U16_val in Sb.
+        clear - Sb. lia.
     - unfold RdSt, rem_bytes. fold tail. cbn [r_entries r_size r_block r_off r_iblock r_ibase].
-      split; [rewrite S1, ListN.lenN_cons; lia|]. split.
-      { destruct (N.leb_spec (8 + cl (de_name e) + cl tail + 3 - 8) (cl (de_name e))); lia. }
+      split; [rewrite S1, ListN.lenN_cons; clear; lia|]. split.
+      { clear. destruct (N.leb_spec (8 + cl (de_name e) + cl tail + 3 - 8) (cl (de_name e))); lia. }
       split; [intros _; unfold tail; rewrite <- app_assoc; exact P4|]. intros _. repeat split; assumption.
   Qed.
 
